@@ -351,7 +351,7 @@ fn cmd_run(prop: &str, tier: Tier) -> i32 {
             "replay": replay_info,
             "harness_errors": harness,
             "real_code": "dropshot (all of it, macros included), hyper 1.6 h1+h2 server, hyper-util auto::Builder/GracefulShutdown, h2, http, httparse, serde stack, multer, rustls/tokio-rustls (HTTPS runs), tokio current-thread scheduler, tokio timer wheel, tokio sync, waitgroup",
-            "stubs": "TCP sockets (SimNet: in-memory wires with seeded segmentation, latency, back-pressure, close/reset/half-close, accept errors), OS clock (tokio paused clock + SimTimer for hyper), request-id randomness (seeded generator), logging drain (slog::Discard)",
+            "stubs": "TCP sockets (SimNet: in-memory wires with seeded segmentation, latency, back-pressure, close/reset/half-close, accept errors), OS clock (tokio paused clock + SimTimer for hyper), request-id randomness (seeded generator), log output (every record and key-value pair is formatted, the text discarded)",
         },
         "assumptions": scn.assumptions(),
         "wall_s": wall,
